@@ -53,7 +53,8 @@ func chance(t *rapid.T, label string, pct int) bool {
 }
 
 var fractionChoices = []string{"0.5", "0.25", "0.3", "0.7", "0.1", "1", "0.55", "0.45"}
-var gpuMemChoices = []int64{2000, 4000, 5000, 8000, 10000, 3300}
+// incl. requests that are a whole multiple of a small device's memory (16000 on an 8000 MiB device, 32000 on 16000)
+var gpuMemChoices = []int64{2000, 4000, 5000, 8000, 10000, 3300, 16000, 20000, 32000}
 
 func genNodes(t *rapid.T, o GenOpts) []NodeSpec {
 	n := rapid.IntRange(1, o.MaxNodes).Draw(t, "nodes")
@@ -665,7 +666,7 @@ func GenRobustnessScript(t *rapid.T, thorough bool) *Script {
 		nw.Labels["kubernetes.io/hostname"] = "nw"
 		s.World.Workloads[wi].Topo = &TopoConstraint{Topology: "witness-topo", Required: pick(t, "witnesslevel", "kaisim/witness-zone", "kubernetes.io/hostname")}
 		for i := rapid.IntRange(0, 2).Draw(t, "ntopoinject"); i > 0; i-- {
-			ops = append(ops, Op{Kind: "inject", Arg: pick(t, "itopokind", "topology-no-levels", "pg-unknown-topology-level", "pg-unknown-topology"), N: rapid.IntRange(0, 14).Draw(t, "ivariant")})
+			ops = append(ops, Op{Kind: "inject", Arg: pick(t, "itopokind", "topology-no-levels", "pg-unknown-topology-level", "pg-unknown-topology", "topology-root-collision"), N: rapid.IntRange(0, 14).Draw(t, "ivariant")})
 		}
 	}
 	ninj := rapid.IntRange(1, 4).Draw(t, "ninject")
